@@ -108,8 +108,11 @@ def remove_widow_latents(
     :param tag: The tag for which variables are latent
     :returns: The graph, modified in place
     """
-    remove = set(iter_widow_latents(graph, tag=tag))
-    graph.remove_nodes_from(remove)
+    remove: set[Variable] = set()
+    # removing a widow can leave a latent parent of it without children, so repeat until none is left
+    while widows := set(iter_widow_latents(graph, tag=tag)):
+        graph.remove_nodes_from(widows)
+        remove.update(widows)
     return graph, remove
 
 
